@@ -7,6 +7,9 @@ import (
 	"math/big"
 	"math/bits"
 	"regexp"
+	"strings"
+
+	"gosymx/smt"
 
 	"golang.org/x/tools/go/ssa"
 
@@ -53,12 +56,32 @@ func (w *World) registerIntrinsics() {
 		if lo == hi {
 			return lo
 		}
+		if cw := m.cfg.ConcreteWitness; cw != nil {
+			r, err := smt.ParseNum(cw[len(m.nondets)-1])
+			if err != nil {
+				m.unsupported("bad concrete witness")
+			}
+			return r.Num().Int64()
+		}
+		if m.guide != nil {
+			r, err := smt.ParseNum(m.cfg.Guide[len(m.nondets)-1])
+			if err != nil {
+				m.unsupported("bad guide witness")
+			}
+			m.guide.Num[name] = r
+		}
 		return m.ctx.FromAtom(at)
 	}
 	h["vBool"] = func(m *Machine, fn *ssa.Function, a []Value) Value {
 		name := m.newNondetName(concStr(m, a[0]))
 		b := m.ctx.BoolVar(name)
 		m.nondets = append(m.nondets, NondetRec{Name: name, Kind: "bool", BVar: b})
+		if cw := m.cfg.ConcreteWitness; cw != nil {
+			return strings.TrimSpace(cw[len(m.nondets)-1]) == "true"
+		}
+		if m.guide != nil {
+			m.guide.Bool[name] = strings.TrimSpace(m.cfg.Guide[len(m.nondets)-1]) == "true"
+		}
 		return b
 	}
 	h["vReal"] = func(m *Machine, fn *ssa.Function, a []Value) Value {
